@@ -1,3 +1,8 @@
--- This module serves as the root of the `ThriftVerif` library.
--- Import modules here that should be built as part of the library.
-import ThriftVerif.Basic
+-- Root of the `ThriftVerif` library: imports every model, proof and property module.
+import ThriftVerif.Wire.Bytes
+import ThriftVerif.Wire.Value
+import ThriftVerif.Wire.Text
+import ThriftVerif.Wire.Skip
+import ThriftVerif.Wire.Envelope
+import ThriftVerif.Wire.RoundTrip
+import ThriftVerif.Wire.Canonical
